@@ -771,6 +771,11 @@ def run(rep, tier):
     gost_bulk(rep, ug)
     gost_bulk_small = None
     wipes(rep, uc, ug)
+    from rules import r_tbaa
+    n_al = 0
+    for u_ in (uc, ug, ugs):
+        n_al += r_tbaa.check(rep, u_, [f for f in u_.function_list if f.relfile() in (CH, GO)])
+    rep.floor("typed objects accessed through a cast pointer", n_al, 4)
     return driver.finish(
         rep, "other",
         "Static analysis of chacha.h and gost28147.h (neither is compiled by the test suite). Decided: ChaCha constants, "
@@ -779,3 +784,11 @@ def run(rep, tier):
         "both table builds, table expansion formula, S-box permutations, aligned/unaligned and encrypt/decrypt I/O agreement; "
         "context wipes. NOT decided: key-stream and cipher-text values.",
         ["reference structure taken from RFC 8439 / draft-irtf-cfrg-xchacha and GOST 28147-89 (RFC 5830)"], TRUSTED)
+
+
+def selftest():
+    from rules import r_tbaa
+    u = fixtures.load("tbaa.c")
+    rep = driver.Report("fixture", "quick")
+    r_tbaa.check(rep, u, [f for f in u.function_list if f.name.startswith("fx_")])
+    fixtures.expect(rep, ["fx_copy_bad", "fx_pun_bad"], ["fx_copy_ok", "fx_bytes_ok", "fx_param_ok"], "R-TBAA")
